@@ -1,14 +1,14 @@
-\* one client, root + 2 child tasks, 4 contexts, depth 3, 3 wire requests: repaired propagation, the property holds
+\* The code as written (first caller sets the start, every caller overwrites the end). Self-test: TLC must report a violation.
 SPECIFICATION Spec
 CONSTANTS
   Tasks <- T3
   Roots <- R1
-  MaxCtx = 4
-  MaxWire = 3
-  MaxDepth = 3
+  MaxCtx = 3
+  MaxWire = 2
+  MaxDepth = 2
   MaxKids = 2
   MaxChunks = 0
-  MinMaxPropagation = TRUE
+  MinMaxPropagation = FALSE
 VIEW view
 INVARIANT TypeOK
 INVARIANT PointerIsScope
